@@ -2711,6 +2711,10 @@ int x509_uri_as_distribution_point_from_der(const char **uri, size_t *urilen,
 	const uint8_t *d;
 	size_t dlen;
 
+	// an absent distributionPoint leaves these untouched below
+	*uri = NULL;
+	*urilen = 0;
+
 	if ((ret = asn1_sequence_from_der(&d, &dlen, in, inlen)) != 1) {
 		if (ret < 0) error_print();
 		return ret;
